@@ -235,12 +235,33 @@ enum Built {
     Ok(FnGraph<Node>, i64, Vec<String>),
     Panic(String),
     Timeout,
+    /// the process grew by this many bytes during the build
+    Memory(u64),
 }
 
-/// `build()`, on its own thread whenever the input is large enough for path-counting work to matter (12 functions or
-/// more, or the scenario says so): a build that has not finished after BUILD_SECS is given up -- the thread is left
-/// behind and the harness stops after this scenario. fn_graph's hook sink is thread-local, so the build thread
-/// switches it on itself and hands the events and the pop counter back.
+/// Resident set size of this process in bytes (Linux), 0 if unknown.
+fn rss_bytes() -> u64 {
+    std::fs::read_to_string("/proc/self/statm")
+        .ok()
+        .and_then(|s| s.split_whitespace().nth(1).and_then(|p| p.parse::<u64>().ok()))
+        .map(|pages| pages * 4096)
+        .unwrap_or(0)
+}
+
+type Job = Box<dyn FnOnce() -> Built + Send>;
+
+thread_local! {
+    /// The builder thread of this harness thread: ONE long-lived worker, so that whatever fn_graph keeps per thread
+    /// between two `build()` calls is kept, as in a real program.
+    static BUILDER: std::cell::RefCell<Option<(std::sync::mpsc::Sender<Job>, std::sync::mpsc::Receiver<Built>)>> =
+        const { std::cell::RefCell::new(None) };
+}
+
+/// `build()`, on the builder thread whenever the input is large enough for path-counting work to matter (12 functions
+/// or more, or the scenario says so). A build that has not finished after BUILD_SECS, or during which the process grows
+/// by more than BUILD_BYTES, is given up -- the thread is left behind and the harness stops after this scenario.
+/// fn_graph's hook sink is thread-local, so the builder thread switches it on itself and hands the events and the
+/// pop counter back.
 fn build_watched(b: FnGraphBuilder<Node>, n: usize, force: bool, hooks_on: bool) -> Built {
     let run = move || {
         #[cfg(feature = "hooks")]
@@ -262,21 +283,51 @@ fn build_watched(b: FnGraphBuilder<Node>, n: usize, force: bool, hooks_on: bool)
     if n < 12 && !force {
         return run();
     }
-    let (tx, rx) = std::sync::mpsc::channel();
-    std::thread::spawn(move || {
+    let job: Job = Box::new(move || {
         #[cfg(feature = "hooks")]
-        if hooks_on {
-            fn_graph::verif_hooks::start();
+        {
+            if hooks_on {
+                fn_graph::verif_hooks::start();
+            } else {
+                fn_graph::verif_hooks::stop();
+            }
         }
-        let _ = tx.send(run());
+        run()
     });
-    match rx.recv_timeout(std::time::Duration::from_secs(BUILD_SECS)) {
-        Ok(r) => r,
-        Err(_) => {
-            crate::ABANDON.store(true, std::sync::atomic::Ordering::SeqCst);
-            Built::Timeout
+    BUILDER.with(|cell| {
+        let mut cell = cell.borrow_mut();
+        if cell.is_none() {
+            let (jtx, jrx) = std::sync::mpsc::channel::<Job>();
+            let (rtx, rrx) = std::sync::mpsc::channel::<Built>();
+            std::thread::spawn(move || {
+                while let Ok(job) = jrx.recv() {
+                    if rtx.send(job()).is_err() {
+                        break;
+                    }
+                }
+            });
+            *cell = Some((jtx, rrx));
         }
-    }
+        let (jtx, rrx) = cell.as_ref().expect("builder thread");
+        if jtx.send(job).is_err() {
+            return Built::Panic("harness: builder thread gone".into());
+        }
+        let t0 = std::time::Instant::now();
+        let rss0 = rss_bytes();
+        loop {
+            match rrx.recv_timeout(std::time::Duration::from_millis(50)) {
+                Ok(r) => return r,
+                Err(std::sync::mpsc::RecvTimeoutError::Timeout) => {
+                    let grown = rss_bytes().saturating_sub(rss0);
+                    if t0.elapsed().as_secs() >= BUILD_SECS || grown > BUILD_BYTES {
+                        crate::ABANDON.store(true, std::sync::atomic::Ordering::SeqCst);
+                        return if grown > BUILD_BYTES { Built::Memory(grown) } else { Built::Timeout };
+                    }
+                }
+                Err(_) => return Built::Panic("harness: builder thread died".into()),
+            }
+        }
+    })
 }
 
 pub fn build_logged(scn: &Scenario, w: &W) -> Option<FnGraph<Node>> {
@@ -316,14 +367,20 @@ pub fn build_logged(scn: &Scenario, w: &W) -> Option<FnGraph<Node>> {
             None
         }
         Built::Timeout => {
-            w.borrow_mut().ev(json!({"ev":"build_timeout","n":scn.n,"secs":BUILD_SECS}));
+            w.borrow_mut().ev(json!({"ev":"build_timeout","n":scn.n,"secs":BUILD_SECS,"why":"time"}));
+            None
+        }
+        Built::Memory(bytes) => {
+            w.borrow_mut().ev(json!({"ev":"build_timeout","n":scn.n,"secs":BUILD_SECS,"why":"memory","bytes":bytes}));
             None
         }
     }
 }
 
-/// How long `build()` may take (inputs of at most ~1100 functions; the code as given needs milliseconds).
+/// How long `build()` may take (inputs of at most ~1100 functions; the code as given needs milliseconds) ...
 pub const BUILD_SECS: u64 = 30;
+/// ... and by how much the process may grow meanwhile (the code as given needs a few MB).
+pub const BUILD_BYTES: u64 = 3 << 30;
 
 pub fn build_quiet(scn: &Scenario) -> Option<FnGraph<Node>> {
     let b = apply_calls_with(nodes_of(scn), &scn.calls, None, scn.add_fns);
